@@ -346,6 +346,13 @@ def run(ctx):
         cases, runs = run_job(ctx, work, job, n)
         for k, case in cases:
             level_cases.append((job, k, case))
+    hist = {}
+    for j in jobs:
+        v = j.get("variant") or {}
+        for fld in ("method", "dtype", "channels", "encoding", "storage", "kind"):
+            d_ = hist.setdefault(fld, {})
+            d_[str(v.get(fld))] = d_.get(str(v.get(fld)), 0) + 1
+    ctx.notes["variant_histogram"] = hist
     setup = [j for j in jobs if j.get("setup_error")]
     ctx.notes["datasets_that_could_not_be_written"] = {
         "count": len(setup),
